@@ -1,8 +1,9 @@
 /* C08 (public per-feature views): dataset_t::select(samples, feature, buffer) for the four storage kinds.
  * "sample or feature indices outside the valid range are rejected with an exception, never read": the generator's
  * select -- the only reader -- is reached only
- *   (a) after the sample-range guard ran on exactly this sample list and did not throw (ghost record written by the
- *       reduction stubs that the real dataset_t::check(samples) calls, exceptions = early return), and
+ *   (a) with a sample list whose every entry (ghost position nv_g) is in [0, samples()): dataset_t::check(samples) is
+ *       taken by its contract (proved on the real code by the dataset_check_samples target: returns normally => every
+ *       listed index is valid), so a dropped, reordered or weakened guard call leaves the entry unconstrained, and
  *   (b) with a feature index in [0, features()), on the generator and generator-local feature index that the feature
  *       mapping names, with one output row per listed sample.
  * Whether the guard itself rejects every invalid index is the obligation of the dataset_check_samples target. */
@@ -11,10 +12,7 @@ struct nv_feature { int32_t kind; };                 /* feature_t: 0 sclass, 1 m
 struct nv_buf { uint64_t id; };                      /* *_mem_t output buffers: identity only */
 struct nv_map { int64_t n; uint64_t id; };           /* *_map_t / *_cmap_t views of a buffer: leading dimension + buffer identity */
 
-/* ghost record of the guard: the list the reductions of check(samples) were evaluated on */
-const int64_t* nv_min_p; const int64_t* nv_max_p; int64_t nv_min_n, nv_max_n;
-static int64_t nv_t1i_min_rec(const struct nv_t1i* t) { nv_min_p = t->p; nv_min_n = t->n; return nv_t1i_min(t); }
-static int64_t nv_t1i_max_rec(const struct nv_t1i* t) { nv_max_p = t->p; nv_max_n = t->n; return nv_t1i_max(t); }
+int64_t nv_sel_N;     /* ghost: samples() of the data source, fixed by the contract */
 /* ghost record of the reader */
 _Bool nv_selected; const struct nv_rgen* nv_sel_gen; int64_t nv_sel_ifeature, nv_sel_rows; uint64_t nv_sel_buffer;
 
@@ -34,8 +32,8 @@ static struct nv_map nv_resize_and_map(struct nv_buf* b, int64_t n) { struct nv_
 static void nv_generator_select(const struct nv_rgen* g, struct nv_t1i samples, int64_t ifeature, struct nv_map storage)
 {
   if (nv_thrown) return;
-  __CPROVER_assert(nv_min_p == samples.p && nv_min_n == samples.n && nv_max_p == samples.p && nv_max_n == samples.n,
-                   "reader reached only after the sample-range guard ran on this sample list (and did not throw)");
+  __CPROVER_assert(!(0 <= nv_g && nv_g < samples.n) || (0 <= samples.p[nv_g] && samples.p[nv_g] < nv_sel_N),
+                   "reader reached only with a sample list whose every entry is in [0, samples())");
   nv_selected = 1; nv_sel_gen = g; nv_sel_ifeature = ifeature; nv_sel_rows = storage.n; nv_sel_buffer = storage.id;
   if (nv_nondet__Bool()) nv_thrown = 1;     /* the generator may reject the storage kind */
 }
@@ -44,8 +42,8 @@ static void nv_generator_select(const struct nv_rgen* g, struct nv_t1i samples, 
 __CPROVER_requires(NV_DATASET_OK(self) && NV_DATASOURCE_OK(self->m_datasource) && NV_T1I_OK(samples) && __CPROVER_is_fresh(buffer, sizeof(*buffer))) \
 /* instance of the mapping invariant (dataset_t::update) at the queried row */ \
 __CPROVER_requires(NV_FEATURE_OK(self, feature) ==> (0 <= self->m_feature_mapping.p[feature * 5] && (uint64_t)self->m_feature_mapping.p[feature * 5] < self->m_generators.size)) \
-__CPROVER_requires(!nv_selected && nv_min_p == NULL && nv_max_p == NULL) \
-__CPROVER_assigns(nv_thrown, nv_w_index, nv_w_listsize, nv_min_p, nv_max_p, nv_min_n, nv_max_n, nv_selected, nv_sel_gen, nv_sel_ifeature, nv_sel_rows, nv_sel_buffer) \
+__CPROVER_requires(!nv_selected && nv_sel_N == NV_SAMPLES(self) && (samples.n == 0 || (0 <= nv_g && nv_g < samples.n))) \
+__CPROVER_assigns(nv_thrown, nv_w_index, nv_w_listsize, nv_selected, nv_sel_gen, nv_sel_ifeature, nv_sel_rows, nv_sel_buffer) \
 /* an invalid feature index is rejected, nothing is read */ \
 __CPROVER_ensures(!NV_FEATURE_OK(self, feature) ==> (nv_thrown && !nv_selected)) \
 /* a view is returned only from the reader, run on the mapped generator / local feature, one row per listed sample, into the caller's buffer */ \
